@@ -128,6 +128,27 @@ def tables(run: Run):
               group="names.table:proto-plus")
 
 
+    # the REST layer keys JSON-side tables by `<python attribute>|camel_case`: for every reserved word that maps the suffixed attribute back to the
+    # JSON name of the field (finite domain, enumerated completely; words with inner underscores included)
+    from gapic.utils import to_camel_case
+    # (field names follow proto style, lower_snake_case: the three capitalised keywords False / None / True are left out and listed as not decided)
+    bad4 = [(w, to_camel_case(w + "_")) for w in sorted(R) if w == w.lower() and to_camel_case(w + "_") != to_json_name_(w)]
+    run.not_decided.append("fields named by one of the capitalised keywords False / None / True (camel_case lower-cases the first letter; not proto style)")
+    run.table("names.table:camel_case-of-the-suffixed-attribute-is-the-JSON-name-for-every-reserved-word", not bad4, detail=str(bad4[:5]), group="names.table:json-names")
+
+
+def to_json_name_(n):
+    """protobuf's lowerCamel rule: drop underscores, capitalise the character that follows."""
+    out, up = "", False
+    for ch in n:
+        if ch == "_":
+            up = True
+        else:
+            out += ch.upper() if up else ch
+            up = False
+    return out
+
+
 # ---------------------------------------------------------------------------------------------------------- bounded stand-ins
 def uri_spec(uri, R):
     out, i = "", 0
